@@ -175,7 +175,8 @@ def build(case):
             flag = rng.randrange(3)
             value = not state_flags[flag] if rng.random() < 0.8 else state_flags[flag]
             state_flags[flag] = value
-            driver.append({'op': 'setflag', 'f': flag, 'v': value, 'id': ids('d')})
+            driver.append({'op': 'setflag', 'f': flag, 'v': value, 'id': ids('d'),
+                           'via_inverse': rng.random() < 0.25})
             changes.append({'t': when, 'what': 'flag', 'i': flag, 'v': value})
         else:
             tracked = rng.randint(0, 3)
